@@ -327,7 +327,7 @@ def handshake_sock(**kw):
     return sock
 
 
-PRELUDES = ["fresh", "connected", "reused", "reused-midmessage", "reused-midframe", "after-send_close", "mid-own-message"]
+PRELUDES = ["fresh", "connected", "reused", "reused-midmessage", "reused-midframe", "after-send_close", "mid-own-message", "created"]
 
 
 def prepared_ws(prelude, **kw):
@@ -340,6 +340,7 @@ def prepared_ws(prelude, **kw):
                          incomplete. Nothing of the first life may matter for the second connection.
       mid-own-message    the application is in the middle of SENDING a fragmented message of its own (a non-final frame written with
                          send_frame, the final one not yet): receiving is independent of that
+      created            the object comes from the module-level entry point create_connection() (its own defaults for every constructor option)
       after-send_close   the application already sent its close frame (RFC 6455 5.5.2: a ping is answered unless a close frame was
                          *received*; data keeps being delivered until the peer's close arrives)
     """
@@ -347,6 +348,13 @@ def prepared_ws(prelude, **kw):
     if prelude == "fresh":
         sock = ScriptSock(b"", at_end="timeout")
         return make_ws(sock, **kw), sock
+    if prelude == "created":
+        sock = handshake_sock()
+        ws = lib.websocket.create_connection("ws://example.com/chat", socket=sock, **kw)
+        del sock.stream[sock.cursor:]
+        sock.log = []
+        sock.written = bytearray()
+        return ws, sock
     ws = lib.websocket.WebSocket(**kw)
     if prelude.startswith("reused"):
         first = handshake_sock()
